@@ -158,8 +158,9 @@ impl<'a> Model<'a> {
     /// primitive size inside it, maximised with the native alignment for user aggregates.
     pub fn unit(&self, t: &Ty) -> usize {
         match t {
-            Ty::Prim(p) => p.size(),
-            Ty::Phantom(_) | Ty::RangeFull => 0,
+            // maximised with the native alignment: zero-sized types have unit 1
+            Ty::Prim(p) => p.size().max(p.align()),
+            Ty::Phantom(_) | Ty::RangeFull => 1,
             Ty::Array(e, _) | Ty::Tuple(e, _) => self.unit(e),
             Ty::Range(..) => self.size_of(t),
             Ty::Adt(i, args) => {
